@@ -25,7 +25,8 @@ def main(pid, path):
     core.build_driver()
     name = "replay-%s" % pid
     core.rundir(name)
-    files = core.drive(fam, [r["program"]], name, shards=1)
+    # a verdict that depends on process-wide state carries the whole history of its driver process
+    files = core.drive(fam, r["program"]["batch"] if "batch" in r["program"] else [r["program"]], name, shards=1)
     if fam == "pair":
         from . import pair
         wf, rf = pair.split_traces(files, name)
@@ -35,6 +36,8 @@ def main(pid, path):
     else:
         mod, cfg = TRACE_SPEC[fam]
         res = core.validate(mod, cfg, files, name)
+    if "batch" in r["program"]:
+        res["rejections"] = [x for x in res["rejections"] if x["tid"].split("/")[0] == r["program"]["id"]]
     if res["rejections"]:
         rj = res["rejections"][0]
         print("replay: rejected at event %d: %s" % (rj["index"], json.dumps(rj["event"])[:500]))
